@@ -6,7 +6,8 @@
          (order of requests reaching the broker, order of complete answer frames, per-call
          outcome class) equals the recorded history?  prints "<classes> own" or NORUN
    tr  : the same for TransportPool (per-connection journals of requests and answers)
-   avopen / avstale : replay of the ApiVersions witness of Properties/C06.v *)
+   avopen / avstale : regression of the former ApiVersions defect (fixed by /repo 9708961): a
+         time-out inside the ApiVersions body must close the connection *)
 open C06_model
 open C06_io
 
@@ -270,22 +271,24 @@ let search_tr tn conns ans env want =
 (* ------------------------------------------------------------------ av *)
 let av_prefix = [ Enter (nat 1, KApiVersions); LockW (nat 1); Send (nat 1, true, true); Arrive (nat 1);
                   LockR (nat 1); PeekOwn (nat 1); Deadline (nat 1) ]
-let av_next = [ Enter (nat 2, KDo); LockW (nat 2); Send (nat 2, true, true); LockR (nat 2);
-                PeekGarbage (nat 2); ReadDone (nat 2, ROk) ]
+(* the connection is closed by then: the next call's write fails *)
+let av_next = [ Enter (nat 2, KDo); LockW (nat 2); Send (nat 2, false, false) ]
 
-let eval_av stale =
+let eval_av () =
   match run init av_prefix with
   | None -> "MODEL-DISABLED"
   | Some s ->
     let averr = if int_of_nat (outcome_code (thr s (nat 1)).ph) = 4 then 1 else 0 in
     let closed = if s.closed then 1 else 0 in
-    if not stale then Printf.sprintf "averr=%d closed=%d" averr closed
-    else match run s av_next with
-      | None -> Printf.sprintf "averr=%d closed=%d next=disabled" averr closed
-      | Some s2 ->
-        let th = thr s2 (nat 2) in
-        Printf.sprintf "averr=%d closed=%d next=%d own=%s" averr closed
-          (int_of_nat (outcome_code th.ph)) (if own_frame (nat 2) th then "1" else "0")
+    (* on a closed connection the model has no step that hands the next call any bytes *)
+    let garbage_possible =
+      (match run s [ Enter (nat 2, KDo); LockW (nat 2); Send (nat 2, true, true) ] with Some _ -> true | None -> false)
+      || s.misaligned in
+    match run s av_next with
+    | None -> Printf.sprintf "averr=%d closed=%d next=disabled" averr closed
+    | Some s2 ->
+      Printf.sprintf "averr=%d closed=%d next=%d%s" averr closed
+        (int_of_nat (outcome_code (thr s2 (nat 2)).ph)) (if garbage_possible then " GARBAGE-POSSIBLE" else "")
 
 let eval (op : string) (a : string list) : string =
   match op, a with
@@ -298,8 +301,7 @@ let eval (op : string) (a : string list) : string =
     let m = kv a in
     search_tr (hexi (get "T" m)) (parse_journal (get "conns" m)) (parse_journal (get "ans" m))
       (get "env" m) (get "want" m)
-  | "avopen", _ -> eval_av false
-  | "avstale", _ -> eval_av true
+  | ("avopen" | "avstale"), _ -> eval_av ()
   | ("muxbig" | "trbig"), _ -> "skip"
   | _ -> "BADCASE"
 
